@@ -44,7 +44,7 @@ def n_cases(tier):
 
 def one_case(rng, tier):
     kind = rng.choice(['from_iterable', 'from_iterable', 'from_iterable_list', 'from_periodic', 'from_textfile',
-                       'filenames', 'custom'])
+                       'filenames', 'custom', 'from_q'])
     poll = rng.choice([0.5, 1.0])
     svc = rng.choice([0, 0, 0.5, 1.5])
     ops = []
@@ -75,6 +75,7 @@ def check_case(case, counters, sets):
         loop = env.loop
         with R.recording(env.now) as log:
             counter = {'n': 0}
+            run_of_task = {}
             if kind in ('from_iterable', 'from_iterable_list'):
                 items = list(range(case['n_items']))
                 for pos in case.get('none_at', []):
@@ -111,6 +112,24 @@ def check_case(case, counters, sets):
                         open(os.path.join(tmp, '%04d.dat' % counter['n']), 'w').close()
                 for i in range(case['n_items']):
                     loop.call_later(0.3 + i * 0.75, make_file)
+            elif kind == 'from_q':
+                import queue as _queue
+                from streamz.sources import from_q
+                q = _queue.Queue()
+                real_get = q.get_nowait
+
+                def get_logged():
+                    log.add('POLL', 'src', run_of_task.get(asyncio.current_task()))
+                    return real_get()
+                q.get_nowait = get_logged
+                src = from_q(q, sleep_time=poll, asynchronous=True)
+
+                def put_some():
+                    for _ in range(1 + counter['n'] % 3):
+                        counter['n'] += 1
+                        q.put(counter['n'])
+                for i in range(case['n_items']):
+                    loop.call_later(0.3 + i * 0.75, put_some)
             else:
                 class Custom(Source):
                     async def _run(self):
@@ -120,7 +139,6 @@ def check_case(case, counters, sets):
                 src = Custom(asynchronous=True)
             log.name(src, 'src')
             # tag cycles with the run performing them
-            run_of_task = {}
             runs = {'n': 0}
             orig_run = src.run
 
@@ -225,6 +243,10 @@ def check_case(case, counters, sets):
             stopped_now = False
         elif e[2] == 'STOP_CALL' and not e[4]:
             stopped_now = True
+        elif e[2] == 'POLL':
+            n_attr += 1
+            if stopped_now:
+                add('C18:polled-while-stopped@%s' % kind, 'the source polled its queue at t=%s while it was stopped (loop #%s)' % (e[1], e[4]))
         elif e[2] in ('CYCLE_BEGIN', 'SRC_EMIT'):
             if e[2] == 'SRC_EMIT' and kind not in ('from_iterable', 'from_iterable_list'):
                 continue            # emissions inside a cycle are covered by the cycle
